@@ -1,6 +1,7 @@
 // C20 driver: every PipeN of the staged internal/pipe package composes left to
-// right and applies each function exactly once. table (generated at check time
-// from the staged source) lists every exported Pipe function with its arity.
+// right and applies each function exactly once per invocation. The tables
+// (generated at check time from the staged source) list every exported Pipe
+// function, instantiated at a struct type and at the interface type any.
 package main
 
 import (
@@ -10,82 +11,280 @@ import (
 	"verif/drv"
 )
 
-// S is the value threaded through the composition: the trace records the order
-// of application, V is transformed by pairwise non-commuting affine maps.
+// S is the value threaded through the composition: V is transformed by
+// pairwise non-commuting affine maps.
 type S struct {
-	Trace []int
-	V     int
+	V int
 }
 
-type entry struct {
+type entry[T any] struct {
 	Name  string
 	N     int
-	Build func(fs []func(S) S) func(S) S
+	Build func(fs []func(T) T) func(T) T
 }
 
 const prime = 1000003
 
 func coef(i int) (a, b int) { return i + 2, 2*i + 1 } // x -> (i+2)x + 2i+1: no two of them commute
 
-func run(e entry) drv.Result {
-	r := drv.Result{Case: e.Name, Exhaustive: true, Nontrivial: 1}
-	args := []int{0, 1, 2, 7, prime - 1}
-	fail := func(sig, msg string, arg int) {
-		r.Viols = append(r.Viols, drv.Viol{Sig: "C20/" + sig, Msg: fmt.Sprintf("%s (arity %d), argument %d: %s", e.Name, e.N, arg, msg), Replay: map[string]any{"func": e.Name, "arg": arg}})
+func want(n, arg int) int {
+	v := arg
+	for i := 0; i < n; i++ {
+		a, b := coef(i)
+		v = (a*v + b) % prime
 	}
-	for _, arg := range args {
-		counts := make([]int, e.N)
+	return v
+}
+
+type rec struct {
+	r *drv.Result
+	e string
+	n int
+}
+
+func (c rec) fail(sig, msg string, arg any) {
+	if len(c.r.Viols) < 4 {
+		c.r.Viols = append(c.r.Viols, drv.Viol{Sig: "C20/" + sig, Msg: fmt.Sprintf("%s (arity %d), argument %v: %s", c.e, c.n, arg, msg), Replay: map[string]any{"func": c.e, "arg": fmt.Sprint(arg), "family": sig}})
+	}
+}
+
+func seqN(n int) []int {
+	xs := make([]int, n)
+	for i := range xs {
+		xs[i] = i + 1
+	}
+	return xs
+}
+
+// family 1: struct values, affine maps, trace of calls, counters, two invocations
+func famValues(e entry[S], c rec) {
+	for _, arg := range []int{0, 1, 2, 7, prime - 1} {
+		var trace []int
 		fs := make([]func(S) S, e.N)
 		for i := range fs {
 			i := i
 			fs[i] = func(s S) S {
-				counts[i]++
+				trace = append(trace, i+1)
 				a, b := coef(i)
-				return S{Trace: append(append([]int{}, s.Trace...), i+1), V: (a*s.V + b) % prime}
+				return S{V: (a*s.V + b) % prime}
 			}
 		}
 		g := e.Build(fs)
-		r.Evaluations++
-		for i, c := range counts {
-			if c != 0 {
-				fail("eager", fmt.Sprintf("function %d was applied %d times while composing, before the composition was invoked", i+1, c), arg)
-			}
+		c.r.Evaluations++
+		if len(trace) != 0 {
+			c.fail("eager", fmt.Sprintf("functions %v were applied while composing, before the composition was invoked", trace), arg)
+			return
 		}
 		for round := 1; round <= 2; round++ {
+			trace = nil
 			got := g(S{V: arg})
-			want := S{V: arg}
-			for i := 0; i < e.N; i++ {
-				a, b := coef(i)
-				want = S{Trace: append(want.Trace, i+1), V: (a*want.V + b) % prime}
+			if fmt.Sprint(trace) != fmt.Sprint(seqN(e.N)) {
+				c.fail("order", fmt.Sprintf("invocation %d applied the functions in the order %v, want each once in the order %v", round, trace, seqN(e.N)), arg)
+				return
 			}
-			if fmt.Sprint(got.Trace) != fmt.Sprint(want.Trace) {
-				fail("order", fmt.Sprintf("functions applied in the order %v, want %v", got.Trace, want.Trace), arg)
-				break
-			}
-			if got.V != want.V {
-				fail("value", fmt.Sprintf("result %d, want f%d(...f2(f1(a))) = %d", got.V, e.N, want.V), arg)
-				break
-			}
-			for i, c := range counts {
-				if c != round {
-					fail("count", fmt.Sprintf("after %d invocation(s) function %d has been applied %d times", round, i+1, c), arg)
-				}
+			if got.V != want(e.N, arg) {
+				c.fail("value", fmt.Sprintf("result %d, want f%d(...f2(f1(a))) = %d", got.V, e.N, want(e.N, arg)), arg)
+				return
 			}
 		}
 	}
-	r.Sample = map[string]any{"function": e.Name, "arity": e.N, "arguments": args, "families": "trace-append and affine maps x->(i+2)x+2i+1 mod 1000003"}
+}
+
+// family 2: interface values including nil travelling through the pipeline
+func famNil(e entry[any], c rec) {
+	for _, pattern := range []int{0, 1, 2, 3} { // which functions return a nil interface
+		for _, arg := range []any{nil, 5, "x", error(nil)} {
+			var trace []int
+			fs := make([]func(any) any, e.N)
+			for i := range fs {
+				i := i
+				fs[i] = func(x any) any {
+					trace = append(trace, i+1)
+					switch pattern {
+					case 1:
+						return nil
+					case 2:
+						if i%2 == 0 {
+							return nil
+						}
+					case 3:
+						if i%2 == 1 {
+							return nil
+						}
+					}
+					return i + 1
+				}
+			}
+			c.r.Evaluations++
+			got := e.Build(fs)(arg)
+			if fmt.Sprint(trace) != fmt.Sprint(seqN(e.N)) {
+				c.fail("nil-order", fmt.Sprintf("with nil interface values in the pipeline (pattern %d) the functions were applied in the order %v, want %v", pattern, trace, seqN(e.N)), arg)
+				return
+			}
+			var w any = e.N
+			if pattern == 1 || (pattern == 2 && (e.N-1)%2 == 0) || (pattern == 3 && (e.N-1)%2 == 1) {
+				w = nil
+			}
+			if got != w {
+				c.fail("nil-value", fmt.Sprintf("result %v, want the last function's result %v (pattern %d)", got, w, pattern), arg)
+				return
+			}
+		}
+	}
+}
+
+// family 3: re-entrancy - one of the functions invokes the composition itself
+func famReentrant(e entry[S], c rec) {
+	for k := 0; k < e.N; k++ {
+		var g func(S) S
+		depthSeen := 0
+		var trace []string
+		fs := make([]func(S) S, e.N)
+		for i := range fs {
+			i := i
+			fs[i] = func(s S) S {
+				trace = append(trace, fmt.Sprintf("%d", i+1))
+				a, b := coef(i)
+				if i == k && depthSeen == 0 {
+					depthSeen++
+					trace = append(trace, "(")
+					inner := g(S{V: 3})
+					trace = append(trace, ")")
+					if inner.V != want(e.N, 3) {
+						c.fail("reentrant", fmt.Sprintf("function %d invoked the composition recursively and got %d, want %d", k+1, inner.V, want(e.N, 3)), 3)
+					}
+				}
+				return S{V: (a*s.V + b) % prime}
+			}
+		}
+		g = e.Build(fs)
+		c.r.Evaluations++
+		got := g(S{V: 1})
+		if got.V != want(e.N, 1) {
+			c.fail("reentrant", fmt.Sprintf("function %d invokes the composition recursively; the outer invocation returned %d, want %d (call trace %v)", k+1, got.V, want(e.N, 1), trace), 1)
+			return
+		}
+		if len(trace) != 2*e.N+2 {
+			c.fail("reentrant", fmt.Sprintf("function %d invokes the composition recursively: %d function applications in total, want %d (trace %v)", k+1, len(trace)-2, 2*e.N, trace), 1)
+			return
+		}
+	}
+}
+
+// family 4: two invocations of one composition overlap; every interleaving at
+// function granularity for small arities, the "A parks in f_k while B runs
+// completely" interleavings for all arities. The functions are gated so that
+// exactly one invocation runs at a time (no data race is involved).
+func famOverlap(e entry[S], c rec) {
+	type gate struct{ turn chan struct{} }
+	run := func(schedule []int) bool { // schedule: which invocation performs its next function application
+		gates := [2]chan struct{}{make(chan struct{}), make(chan struct{})}
+		arrived := make(chan int)
+		done := make(chan [2]int, 2)
+		fs := make([]func(S) S, e.N)
+		for i := range fs {
+			i := i
+			fs[i] = func(s S) S {
+				inv := s.V >> 40 // the invocation id travels in the value
+				arrived <- inv
+				<-gates[inv]
+				a, b := coef(i)
+				v := s.V & (1<<40 - 1)
+				return S{V: inv<<40 | (a*v+b)%prime}
+			}
+		}
+		g := e.Build(fs)
+		for inv := 0; inv < 2; inv++ {
+			inv := inv
+			go func() { r := g(S{V: inv<<40 | (inv + 1)}); done <- [2]int{inv, r.V & (1<<40 - 1)} }()
+		}
+		// both invocations arrive at their first function
+		waiting := map[int]bool{}
+		for len(waiting) < 2 {
+			waiting[<-arrived] = true
+		}
+		res := map[int]int{}
+		left := [2]int{e.N, e.N}
+		for _, inv := range schedule {
+			gates[inv] <- struct{}{}
+			left[inv]--
+			if left[inv] > 0 {
+				<-arrived
+			} else {
+				d := <-done
+				res[d[0]] = d[1]
+			}
+		}
+		c.r.Evaluations++
+		for inv := 0; inv < 2; inv++ {
+			if res[inv] != want(e.N, inv+1) {
+				c.fail("overlap", fmt.Sprintf("two overlapping invocations of one composition, schedule %v (which invocation applies its next function): invocation %d returned %d, want %d", schedule, inv, res[inv], want(e.N, inv+1)), inv+1)
+				return false
+			}
+		}
+		return true
+	}
+	if e.N <= 5 {
+		var gen func(p []int, a, b int) bool
+		gen = func(p []int, a, b int) bool {
+			if a == 0 && b == 0 {
+				return run(p)
+			}
+			if a > 0 && !gen(append(append([]int{}, p...), 0), a-1, b) {
+				return false
+			}
+			if b > 0 && !gen(append(append([]int{}, p...), 1), a, b-1) {
+				return false
+			}
+			return true
+		}
+		gen(nil, e.N, e.N)
+		return
+	}
+	for k := 0; k <= e.N; k++ { // A applies k functions, B runs completely, A finishes
+		var s []int
+		for i := 0; i < k; i++ {
+			s = append(s, 0)
+		}
+		for i := 0; i < e.N; i++ {
+			s = append(s, 1)
+		}
+		for i := k; i < e.N; i++ {
+			s = append(s, 0)
+		}
+		if !run(s) {
+			return
+		}
+	}
+}
+
+func run(i int) drv.Result {
+	e, ea := table[i], tableAny[i]
+	r := drv.Result{Case: e.Name, Exhaustive: true, Nontrivial: 1}
+	c := rec{&r, e.Name, e.N}
+	famValues(e, c)
+	famNil(ea, c)
+	famReentrant(e, c)
+	done := make(chan struct{})
+	go func() { famOverlap(e, c); close(done) }()
+	select {
+	case <-done:
+	case <-time.After(20 * time.Second):
+		c.fail("overlap-stuck", "overlapping invocations did not finish (an invocation never reached its next function)", 0)
+	}
+	r.Sample = map[string]any{"function": e.Name, "arity": e.N, "families": "affine maps with call trace (5 arguments x 2 invocations); nil interface values through any-typed pipeline (4 nil patterns x 4 arguments); re-entrant invocation from each position; two overlapping invocations under every function-level interleaving (N<=5) or every park-point (N>5)", "evaluations": r.Evaluations}
 	return r
 }
 
 func main() {
 	drv.Main(drv.Property{
-		ID: "C20", Level: "exploration",
-		Rule: "one case = one exported PipeN function of internal/pipe (table generated from the staged source, so a new arity is picked up); for each: 5 arguments x 2 invocations with N functions that append their index to a trace (the result is the call sequence) and apply pairwise non-commuting affine maps, with per-function call counters; every case is non-trivial (any transposition, omission or duplication changes trace, value or counters)",
-		Assumptions: []string{"arities outside the generated table do not exist in the package", "argument values beyond the 5 tried are covered by parametricity of the generic functions"},
+		ID: "C20", Level: "exploration", PanicIsViolation: true,
+		Rule:        "one case = one exported PipeN function of internal/pipe (tables generated from the staged source, so a new arity is picked up); per function: (1) 5 arguments x 2 invocations with pairwise non-commuting affine maps and a call trace (order, exactly-once, no application at composition time); (2) the same function instantiated at type any with nil interface values entering and travelling through the pipeline (4 patterns x 4 arguments); (3) a re-entrant invocation issued from inside function k, for every k; (4) two overlapping invocations of one composition, gated at function granularity: all C(2N,N) interleavings for N<=5, all N+1 park points for larger N; every case is non-trivial (any transposition, omission, duplication or shared per-composition state changes trace, value or counters)",
+		Assumptions: []string{"arities outside the generated table do not exist in the package", "argument values beyond those tried are covered by parametricity of the generic functions", "overlapping invocations are serialized by gates: data races inside PipeN itself are not modelled"},
 		Cases: func(string) (int, func(int) string) {
 			return len(table), func(i int) string { return table[i].Name }
 		},
-		Run: func(_ string, i int, _ time.Time) drv.Result { return run(table[i]) },
+		Run: func(_ string, i int, _ time.Time) drv.Result { return run(i) },
 		Extra: func(_ string, cov map[string]any) {
 			var ns []int
 			for _, e := range table {
